@@ -395,6 +395,17 @@ class FrameTrack:
     # -- expression hook: a copy / move construction or temporary of an erased value is the value (so that a mapped call or a
     #    modelled write underneath it is printed instead of being erased together with the copy)
     def expr_hook(self, P, n):
+        if n.get('kind') == 'CXXOperatorCallExpr' and len(n.get('inner', [])) == 3 and self.is_cell(P, n['inner'][1].get('type')) \
+                and unwrap(n['inner'][0]).get('referencedDecl', {}).get('name') in ASSIGN_OPS \
+                and unwrap(n['inner'][1]).get('kind') in ('DeclRefExpr', 'MemberExpr'):
+            # `erased = <expression with a mapped call inside>` (e.g. `outputs = predict(..)`): the store is charged to the left-hand
+            # side by the statement hook (possibly-mutating mention); the right-hand side is printed so that the mapped call
+            # takes place instead of making the whole assignment an erased expression with a call inside (Unsupported)
+            has_mapped = any(x.get('kind') in CALL_KINDS and not self.accessor(P, x) and self.effectful(self.mapping_of(P, x))
+                             for x in astload.walk(n['inner'][2]))
+            if has_mapped:
+                P.note('frame: assignment to an erased object from an expression with a mapped call')
+                return f'((void)({P.expr(n["inner"][2])}))'
         if n.get('kind') in ('CXXConstructExpr', 'CXXTemporaryObjectExpr') and self.is_cell(P, n.get('type')) and len(n.get('inner', [])) == 1:
             c = n['inner'][0]
             if self.is_cell(P, c.get('type')) and strip_cv(qual(c['type'])).rstrip('&').strip() == strip_cv(qual(n['type'])) \
